@@ -172,6 +172,7 @@ type plInc struct { // one incarnation of a key: from the creation of its map sl
 	departed bool
 	notified int
 	settled  int64 // virtual time at which its latest NEW/reschedule event was delivered; -1 while one is pending
+	deadline int64 // deadline governing the entry, read right after the write (the Entry object may be recycled later)
 }
 
 type plCall struct {
@@ -308,6 +309,7 @@ func (r *plRun) apiSet(k, cost int, ttl int64) {
 	r.collect()
 	in.lastVal = v
 	in.values = append(in.values, v)
+	in.deadline = e.expire.Load()
 	in.settled = -1
 	r.byVal[v] = in
 }
@@ -360,7 +362,7 @@ func (r *plRun) afterStep(op string, delKey int) *verifkit.Failure {
 					return r.failf("notify/late-evict", "reason %d for key %d value %d, but the entry left the map in an earlier step", cl.reason, cl.key, cl.val)
 				}
 				if cl.reason == EXPIRED {
-					d := in.ptr.expire.Load()
+					d := in.deadline
 					if d == 0 || d > r.now() {
 						return r.failf("notify/expired-early", "EXPIRED for key %d value %d at %d but its deadline is %d", cl.key, cl.val, r.now(), d)
 					}
